@@ -57,6 +57,7 @@ import PyhamModel.Lemmas.FilterAbsent
 import PyhamModel.Lemmas.Interleave
 import PyhamModel.Lemmas.LeafProfile
 import PyhamModel.Lemmas.SaxSim
+import PyhamModel.Lemmas.Chaining
 import PyhamModel.Lemmas.LateSpecies
 namespace Pyham.Props
 open Pyham
@@ -292,6 +293,34 @@ theorem C07_on_loaded_consistent_input (D : Dataset) (hc : D.Consistent) :
             search a r = ((search a ⟨y, post⟩).1, g || (search a ⟨y, post⟩).2)) ∧
         (∀ g, search b r = (none, g) → (search a r).1 = none) :=
   Pyham.C07_on_loaded_consistent_input D hc
+
+/-- **second sentence of C07** -- gains, losses and duplicated sets over a long branch are determined by chaining the
+    comparisons of its sub-branches.  For `a` above `b` above `d` on one lineage: gained over `a → d` = gained over `b → d`,
+    or reported under a gene of `b` that is gained over `a → b`; reported under `x` with flag `f` iff reported under some `y` of
+    `b` (flag `g`) which is reported under `x` (flag `f'`), `f = g || f'` (RETAINED / DUPLICATE of the long branch are the
+    relational composition of those of the sub-branches); lost over `a → d` iff every gene of `b` reported under it is lost
+    over `b → d` -/
+theorem C07_chained (H : Ham) (hw : H.WFc) (a b d : Taxon) (hab : a <:+ b) (hne : a ≠ b) (hbd : b <:+ d) (hbne : b ≠ d) :
+    (∀ n, n ∈ (hogsMap H a d).gain ↔
+        n ∈ (hogsMap H b d).gain ∨
+        ∃ y, (∃ r ∈ H.nodesAt d, r.node = n ∧ (search b r).1 = some y) ∧ y ∈ (hogsMap H a b).gain) ∧
+    (∀ r ∈ H.nodesAt d, ∀ x f, search a r = (some x, f) ↔
+        ∃ y g f', search b r = (some y, g) ∧
+          (∃ yl ∈ H.nodesAt b, yl.node = y ∧ search a yl = (some x, f')) ∧ f = (g || f')) ∧
+    (∀ x ∈ H.nodesAt a, x.node ∈ (hogsMap H a d).loss ↔
+        ∀ yl ∈ H.nodesAt b, (∀ x', (search a yl).1 = some x' → x'.key = x.node.key → yl.node ∈ (hogsMap H b d).loss)) :=
+  Pyham.C07_chained H hw a b d hab hne hbd hbne
+
+/-- ... for every loaded consistent input -/
+theorem C07_chained_on_loaded_consistent_input (D : Dataset) (hc : D.Consistent) :
+    ∃ H, load D.T D.nm D.file = .ok H ∧ ∀ (a b d : Taxon), a <:+ b → a ≠ b → b <:+ d → b ≠ d →
+      (∀ n, n ∈ (hogsMap H a d).gain ↔
+          n ∈ (hogsMap H b d).gain ∨
+          ∃ y, (∃ r ∈ H.nodesAt d, r.node = n ∧ (search b r).1 = some y) ∧ y ∈ (hogsMap H a b).gain) ∧
+      (∀ x ∈ H.nodesAt a, x.node ∈ (hogsMap H a d).loss ↔
+          ∀ yl ∈ H.nodesAt b, (∀ x', (search a yl).1 = some x' → x'.key = x.node.key → yl.node ∈ (hogsMap H b d).loss)) := by
+  obtain ⟨H, hl, _, _, hw, _, _⟩ := loaded_consistent D hc
+  exact ⟨H, hl, fun a b d h1 h2 h3 h4 => ⟨(Pyham.C07_chained H hw a b d h1 h2 h3 h4).1, (Pyham.C07_chained H hw a b d h1 h2 h3 h4).2.2⟩⟩
 
 /-! ## C08 — lateral = vertical against the common ancestor; argument order irrelevant -/
 
